@@ -115,12 +115,16 @@ def random_match_case(rng, exact=True, scope="in"):
             c["mode"], c["given"] = "indices", [0] * (n + 1)
         else:
             c[rng.choice(["trule", "rrule"])] = "simpson"
+    # (only when every reference point sits on its fixed sample: then reference and window widths agree and adding a
+    #  constant to both series adds the same to every target and every window integral)
+    if scope == "in" and not big and exact and xref == [xs[i] for i in fpi] and rng.random() < 0.5:
+        c["yoff"] = [rng.choice([-1, 1]), rng.choice([17, 20])]          # values on a level far above their variation (exact translation)
     if scope == "in" and not big and rng.random() < 0.12:
         c["xoff"] = [rng.choice([-1, 1]), rng.choice([31, 40])]     # the same problem far from the origin (exact translation)
     return c
 
 
-CASE_KEYS = ("fn", "x", "y", "xref", "yref", "mode", "strategy", "given", "trule", "rrule", "alpha", "alpha_f", "exact", "bounded", "container", "ycontainer", "mc", "xoff")
+CASE_KEYS = ("fn", "x", "y", "xref", "yref", "mode", "strategy", "given", "trule", "rrule", "alpha", "alpha_f", "exact", "bounded", "container", "ycontainer", "mc", "xoff", "yoff")
 
 
 def random_private_case(rng):
